@@ -315,13 +315,23 @@ impl<'a> Gen<'a> {
 
     fn pubrel_on_wire(&self, op: usize) -> bool {
         let Some(&pid) = self.world.op_pid.get(&op) else { return false };
-        let Some(pub_off) = self.world.wire.iter().find(|p| marker_of(&p.pkt) == Some(op)).map(|p| (p.conn, p.off)) else {
+        // the latest transmission of the op's PUBLISH (a resumed session re-sends it)
+        let Some(pub_at) = self.world.wire.iter().rev().find(|p| marker_of(&p.pkt) == Some(op)).map(|p| (p.conn, p.off)) else {
             return false;
         };
-        self.world
-            .wire
-            .iter()
-            .any(|p| p.conn == pub_off.0 && p.off > pub_off.1 && matches!(&p.pkt, Packet::Pubrel(a) if a.pid == pid))
+        let cur = self.world.conn().unwrap_or(0);
+        self.world.wire.iter().any(|p| {
+            matches!(&p.pkt, Packet::Pubrel(a) if a.pid == pid) && ((p.conn == pub_at.0 && p.off > pub_at.1) || (p.conn > pub_at.0 && p.conn == cur))
+        })
+    }
+
+    /// Forgets that an acknowledgement was sent (it was lost with the connection).
+    pub fn rollback_stage(&mut self, op: usize, kind: AckKind) {
+        let st = match kind {
+            AckKind::Pubcomp => Stage::PubrecOk,
+            _ => Stage::None,
+        };
+        self.stage.insert(op, st);
     }
 
     /// Acknowledgements a conformant broker could send now: (op, kind).
